@@ -9,19 +9,39 @@ Models of the improvement environments for ONE instance (one batch row).  No Mat
 
 A solution is a successor array `rec : Nat → Nat` over nodes `0 .. n-1` ("linked list": `rec j` is
 the node visited after `j`).  Scatter of one entry is `upd`; a Python `for` loop is a structural
-recursion on its trip count.  `rec.argsort()` is only ever applied to a permutation of `0..n-1`,
-where it is the inverse permutation (the predecessor array); the model `pred` searches the index.
+recursion on its trip count.  `rec.argsort()` is modelled as what it is — the indices `0..n-1` sorted by
+their value (`argsort`, an insertion sort; ties are irrelevant because the code only applies it to
+permutations) — and `Proofs/ImproveCycle.lean` PROVES that on a permutation it is the inverse permutation
+(the predecessor array).
+
+Decision-critical tokens of the source (comparison operators, thresholds, loop trip counts, stamp offsets,
+the order of the PDP re-insertion, checker comparisons) are PARAMETERS of the `…C` / `…P` definitions; the
+section `Code` at the end instantiates them with `Rl4co.Params.improve…`, which `harness/extract.py`
+regenerates from the Python AST on every run.  The un-suffixed definitions are the instances at the values the
+theorems need; `Props/C09/ImproveCode.lean` proves (by `decide`) that the extracted values are those.
 -/
 import Rl4co.Core.Basic
 import Rl4co.Core.Sort
+import Rl4co.Generated.Params
 
 namespace Rl4co.Improve
 
 abbrev Rec := Nat → Nat
 
-/-- `rec.argsort()[j]` for a permutation `rec` of `0..n-1`: the `i < n` with `rec i = j`. -/
-def pred (n : Nat) (rec : Rec) (j : Nat) : Nat :=
-  ((List.range n).find? (fun i => rec i == j)).getD 0
+/-- insertion into a list of indices sorted by `key` -/
+def insertBy (key : Nat → Nat) (x : Nat) : List Nat → List Nat
+  | [] => [x]
+  | y :: ys => if key x ≤ key y then x :: y :: ys else y :: insertBy key x ys
+
+def isortBy (key : Nat → Nat) : List Nat → List Nat
+  | [] => []
+  | x :: xs => insertBy key x (isortBy key xs)
+
+/-- `rec.argsort()`: the indices `0..n-1` sorted by the value `rec` holds there -/
+def argsortL (n : Nat) (rec : Rec) : List Nat := isortBy rec (List.range n)
+
+/-- `rec.argsort()[j]` -/
+def argsort (n : Nat) (rec : Rec) (j : Nat) : Nat := (argsortL n rec).getD j 0
 
 /-! ### 2-opt (`two_opt_mode`) -/
 
@@ -34,15 +54,18 @@ def revLoop (sol : Rec) (second : Nat) : Nat → Nat → Rec → Rec
     let rec' := upd rec curNext (if cur ≠ second then cur else rec curNext)
     revLoop sol second k (if cur ≠ second then curNext else cur) rec'
 
-/-- `_local_operator` in `two_opt_mode` with action `(first, second)`. -/
-def localOp2 (n : Nat) (sol : Rec) (first second : Nat) : Rec :=
-  let preFirst := pred n sol first
+/-- `_local_operator` in `two_opt_mode` with action `(first, second)`; the reverse loop runs
+`num_loc - sub` times (`sub = 0` in the source). -/
+def localOp2C (sub n : Nat) (sol : Rec) (first second : Nat) : Rec :=
+  let preFirst := argsort n sol first
   let preFirst := if preFirst ≠ second then preFirst else first
   let r := upd sol preFirst second
   let postSecond := sol second
   let postSecond := if postSecond ≠ first then postSecond else second
   let r := upd r first postSecond
-  revLoop sol second n first r
+  revLoop sol second (n - sub) first r
+
+def localOp2 (n : Nat) (sol : Rec) (first second : Nat) : Rec := localOp2C 0 n sol first second
 
 /-- `get_mask` in `two_opt_mode`: everything but the diagonal. -/
 def mask2 (first second : Nat) : Bool := first != second
@@ -65,12 +88,16 @@ def koptLoop (prd : Rec) (rightNodes : List Nat) : Nat → Nat → Rec → Rec
     let nextNext := rec nextCur
     koptLoop prd rightNodes k nextCur (upd rec nextCur (if cond then preOld else nextNext))
 
-/-- `_local_operator` with `k_max > 2`; the action is `(selected_index, left, right)`, `K` entries each. -/
-def localOpK (n : Nat) (sol : Rec) (sel left right : List Nat) : Rec :=
+/-- `_local_operator` with `k_max > 2`; the action is `(selected_index, left, right)`, `K` entries each;
+the relinking walk runs `num_loc - sub` times (`sub = 2` in the source). -/
+def localOpKC (sub n : Nat) (sol : Rec) (sel left right : List Nat) : Rec :=
   let rightNodes := sel.map sol
-  let prd := pred n sol
+  let prdL := argsortL n sol          -- `argsort = rec.argsort()`, computed once
+  let prd : Rec := fun j => prdL.getD j 0
   let r := scatterL sol left right
-  koptLoop prd rightNodes (n - 2) (left.headD 0) r
+  koptLoop prd rightNodes (n - sub) (left.headD 0) r
+
+def localOpK (n : Nat) (sol : Rec) (sel left right : List Nat) : Rec := localOpKC 2 n sol sel left right
 
 /-- state of the sequential action builder shared by `TSPkoptEnv._random_action` (k_max > 2) and
 `NeuOptPolicy.forward` -/
@@ -134,12 +161,12 @@ def pdpLocalOp (gs : Nat) (sol : Rec) (pairIdx first second : Nat) : Rec :=
   let p := pairIdx + 1
   let d := p + gs / 2
   -- remove the pickup
-  let prePick := pred gs sol p
+  let prePick := argsort gs sol p
   let postPick := sol p
   let r := upd sol prePick postPick
   let r := upd r p p
   -- remove the delivery (fresh argsort)
-  let preDel := pred gs r d
+  let preDel := argsort gs r d
   let postDel := r d
   let r := upd r preDel postDel
   -- delivery after `second`
@@ -151,6 +178,28 @@ def pdpLocalOp (gs : Nat) (sol : Rec) (pairIdx first second : Nat) : Rec :=
   let r := upd r first p
   upd r p postFirst
 
+/-- the same with the source's tokens as parameters: `off` = the `+ 1` of `pair_index`, `deliveryFirst` =
+the splice at `second` is executed before the splice at `first`, `secondGetsDelivery` = the node spliced in
+after `second` is the delivery (and the pickup goes after `first`). -/
+def pdpLocalOpC (off : Nat) (deliveryFirst secondGetsDelivery : Bool) (gs : Nat) (sol : Rec)
+    (pairIdx first second : Nat) : Rec :=
+  let p := pairIdx + off
+  let d := p + gs / 2
+  let prePick := argsort gs sol p
+  let postPick := sol p
+  let r := upd sol prePick postPick
+  let r := upd r p p
+  let preDel := argsort gs r d
+  let postDel := r d
+  let r := upd r preDel postDel
+  let nodeS := if secondGetsDelivery then d else p
+  let nodeF := if secondGetsDelivery then p else d
+  let spliceAfter (r : Rec) (at' node : Nat) : Rec :=
+    let post := r at'
+    upd (upd r at' node) node post
+  if deliveryFirst then spliceAfter (spliceAfter r second nodeS) first nodeF
+  else spliceAfter (spliceAfter r first nodeF) second nodeS
+
 /-- the `visited_time` walk of `_reset`/`_step`: `n` hops from node 0, hop `i` stamps `i+1`. -/
 def vtLoop (rec : Rec) : Nat → Nat → Nat → (Nat → Nat) → (Nat → Nat)
   | 0, _, _, vt => vt
@@ -160,11 +209,27 @@ def vtLoop (rec : Rec) : Nat → Nat → Nat → (Nat → Nat) → (Nat → Nat)
 
 def visitedTime (n : Nat) (rec : Rec) : Nat → Nat := vtLoop rec n 0 0 (fun _ => 0)
 
+/-- the walk with the source's tokens as parameters: `p.1` = the `+ 1` of the stamp `i + 1`, `p.2` = the
+deficit `c` of the trip count `range(gs - c)` -/
+def vtLoopC (stamp : Nat) (rec : Rec) : Nat → Nat → Nat → (Nat → Nat) → (Nat → Nat)
+  | 0, _, _, vt => vt
+  | k + 1, i, pre, vt =>
+    let cur := rec pre
+    vtLoopC stamp rec k (i + 1) cur (upd vt cur (i + stamp))
+
+def visitedTimeC (p : Nat × Nat) (n : Nat) (rec : Rec) : Nat → Nat :=
+  vtLoopC p.1 rec (n - p.2) 0 0 (fun _ => 0)
+
 /-- `PDPRuinRepairEnv.get_mask(selected_node = p, td)[first, second]` (True = admitted);
 `p` is the 1-based pickup node. -/
 def pdpMask (gs : Nat) (vt : Nat → Nat) (p first second : Nat) : Bool :=
   let d := p + gs / 2
   !(decide (vt first % gs > vt second % gs) || first == p || first == d || second == p || second == d)
+
+/-- the same with the operator of `visited_time.view(bs, gs, 1) > visited_time.view(bs, 1, gs)` as a parameter -/
+def pdpMaskC (cmp : Cmp) (gs : Nat) (vt : Nat → Nat) (p first second : Nat) : Bool :=
+  let d := p + gs / 2
+  !(cmp.evalNat (vt first % gs) (vt second % gs) || first == p || first == d || second == p || second == d)
 
 /-! ### `_random_action` as a relation (every action it can emit)
 
@@ -213,7 +278,89 @@ def step {A : Type} (n : Nat) (D : Nat → Nat → Int) (op : Rec → A → Rec)
     costCur := newObj, costBsf := nowBsf, reward := reward
     vt := visitedTime n next }
 
+/-- the source tokens of `_reset` / `_step` (one set per environment class) -/
+structure StepParams where
+  bsfCmp : Cmp              -- `torch.where(new_obj < cost_bsf, …)`
+  whereNewFirst : Bool      -- `torch.where(cond, new_obj, cost_bsf)`
+  rewardOldMinusNew : Bool  -- `reward = cost_bsf - now_bsf`
+  bestCmp : Cmp             -- `index = reward > 0.0`
+  bestThr : Int × Nat       -- the `0.0`, as an exact rational
+  vtStep : Nat × Nat        -- `visited_time` walk of `_step`
+  vtReset : Nat × Nat       -- `visited_time` walk of `_reset`
+  deriving DecidableEq
+
+/-- the values the theorems need (= the pinned source) -/
+def StepParams.std : StepParams :=
+  { bsfCmp := .lt, whereNewFirst := true, rewardOldMinusNew := true, bestCmp := .gt, bestThr := (0, 1),
+    vtStep := (1, 0), vtReset := (1, 0) }
+
+/-- ticks per unit length (`rl.SCALE`), only needed to compare a reward with a NON-zero threshold -/
+def ticksPerUnit : Int := 1048576
+
+def resetP (P : StepParams) (n : Nat) (D : Nat → Nat → Int) (rec0 : Rec) : State :=
+  let obj := cost n D rec0
+  { recCur := rec0, recBest := rec0, costCur := obj, costBsf := obj, reward := 0,
+    vt := visitedTimeC P.vtReset n rec0 }
+
+def stepP {A : Type} (P : StepParams) (n : Nat) (D : Nat → Nat → Int) (op : Rec → A → Rec) (s : State) (a : A) :
+    State :=
+  let next := op s.recCur a
+  let newObj := cost n D next
+  let c := P.bsfCmp.eval newObj s.costBsf
+  let nowBsf := if c then (if P.whereNewFirst then newObj else s.costBsf)
+    else (if P.whereNewFirst then s.costBsf else newObj)
+  let reward := if P.rewardOldMinusNew then s.costBsf - nowBsf else nowBsf - s.costBsf
+  let index := P.bestCmp.eval (reward * (P.bestThr.2 : Int)) (P.bestThr.1 * ticksPerUnit)
+  { recCur := next
+    recBest := if index then next else s.recBest
+    costCur := newObj, costBsf := nowBsf, reward := reward
+    vt := visitedTimeC P.vtStep n next }
+
+/-! ### the batched `_step` as written (column by column) -/
+
+/-- `solution_best[index] = next_rec[index].clone()`: the rows selected by the boolean mask are overwritten in
+the tensor `td["rec_best"]` itself, all other rows keep their content -/
+def maskedAssign : List Rec → List Bool → List Rec → List Rec
+  | b :: bs, i :: is, x :: xs => (if i then x else b) :: maskedAssign bs is xs
+  | _, _, _ => []
+
+/-- `td.update({...})`: the columns put back together row by row -/
+def assemble : List Rec → List Rec → List Int → List Int → List Int → List (Nat → Nat) → List State
+  | a :: as, b :: bs, c :: cs, d :: ds, e :: es, f :: fs =>
+    { recCur := a, recBest := b, costCur := c, costBsf := d, reward := e, vt := f } :: assemble as bs cs ds es fs
+  | _, _, _, _, _, _ => []
+
+/-- `_step` on a batch: every line of the source acts on whole columns (`Ds` = the rows' distance matrices,
+`as` = the rows' actions) -/
+def batchStepP {A : Type} (P : StepParams) (n : Nat) (Ds : List (Nat → Nat → Int)) (op : Rec → A → Rec)
+    (ss : List State) (as : List A) : List State :=
+  let solution := ss.map (·.recCur)
+  let solutionBest := ss.map (·.recBest)
+  let costBsf := ss.map (·.costBsf)
+  let nextRec := List.zipWith op solution as
+  let newObj := List.zipWith (fun D r => cost n D r) Ds nextRec
+  let nowBsf := List.zipWith (fun o b => if P.bsfCmp.eval o b then (if P.whereNewFirst then o else b)
+    else (if P.whereNewFirst then b else o)) newObj costBsf
+  let reward := List.zipWith (fun b nb => if P.rewardOldMinusNew then b - nb else nb - b) costBsf nowBsf
+  let index := reward.map (fun rw => P.bestCmp.eval (rw * (P.bestThr.2 : Int)) (P.bestThr.1 * ticksPerUnit))
+  let solutionBest := maskedAssign solutionBest index nextRec
+  let visitedTime := nextRec.map (visitedTimeC P.vtStep n)
+  assemble nextRec solutionBest newObj nowBsf reward visitedTime
+
 /-! ### checkers -/
+
+/-- `arange <cmp> sort(rec_best)` elementwise, `.all()` -/
+def checkKoptC (cmp : Cmp) (n : Nat) (rec : Rec) : Bool :=
+  (List.zipWith (fun a b => cmp.evalNat a b) (List.range n) (sortNat ((List.range n).map rec))).all id
+
+/-- the PDP checker with its tokens as parameters -/
+def checkPdpC (cmpPerm cmpPrec : Cmp) (vtp : Nat × Nat) (gs : Nat) (rec : Rec) : Bool :=
+  let vt := visitedTimeC vtp gs rec
+  checkKoptC cmpPerm gs rec &&
+  decide (gs / 2 = gs - (gs / 2 + 1)) &&
+  (List.range (gs / 2)).all (fun k => cmpPrec.evalNat (vt (k + 1)) (vt (k + 1 + gs / 2)))
+
+
 
 /-- `TSPkoptEnv.check_solution_validity`: `sort(rec_best) == arange` -/
 def checkKopt (n : Nat) (rec : Rec) : Bool :=
@@ -226,5 +373,30 @@ def checkPdp (gs : Nat) (rec : Rec) : Bool :=
   checkKopt gs rec &&
   decide (gs / 2 = gs - (gs / 2 + 1)) &&   -- the two slices must have equal length (else torch raises)
   (List.range (gs / 2)).all (fun k => decide (vt (k + 1) < vt (k + 1 + gs / 2)))
+
+/-! ### the model instantiated with the tokens extracted from the current source -/
+
+namespace Code
+
+def localOp2 := localOp2C Params.improveKopt2LoopSub
+def localOpK := localOpKC Params.improveKoptKLoopSub
+def pdpLocalOp :=
+  pdpLocalOpC Params.improvePdpPairOffset Params.improvePdpDeliveryFirst Params.improvePdpSecondGetsDelivery
+def pdpMask := pdpMaskC Params.improvePdpMaskCmp
+
+def koptParams : StepParams :=
+  { bsfCmp := Params.improveKoptBsfCmp, whereNewFirst := Params.improveKoptBsfWhereNewFirst,
+    rewardOldMinusNew := Params.improveKoptRewardOldMinusNew, bestCmp := Params.improveKoptBestCmp,
+    bestThr := Params.improveKoptBestThr, vtStep := Params.improveKoptStepVt, vtReset := Params.improveKoptResetVt }
+
+def pdpParams : StepParams :=
+  { bsfCmp := Params.improvePdpBsfCmp, whereNewFirst := Params.improvePdpBsfWhereNewFirst,
+    rewardOldMinusNew := Params.improvePdpRewardOldMinusNew, bestCmp := Params.improvePdpBestCmp,
+    bestThr := Params.improvePdpBestThr, vtStep := Params.improvePdpStepVt, vtReset := Params.improvePdpResetVt }
+
+def checkKopt := checkKoptC Params.improveKoptCheckCmp
+def checkPdp := checkPdpC Params.improvePdpCheckCmp Params.improvePdpCheckPrecCmp Params.improvePdpCheckVt
+
+end Code
 
 end Rl4co.Improve
